@@ -75,6 +75,7 @@ def cases(draw):
         "delta": draw(st.sampled_from([F(1, 10 ** 12), F(1, 1000), F(1), F(-1, 100)])),
         "factor": draw(st.sampled_from([F(2), F(1, 3), F(7, 2)])),
         "noncurve": draw(st.sampled_from(["int", "none", "list", "knotvector", "str"])),
+        "history": draw(st.sampled_from(lib.HISTORY_MODES)),
     }
 
 
@@ -175,6 +176,25 @@ def check(case, out):
                 out.exclude("ambiguous-band")
                 return
     A, B = build_from_state(a), build_from_state(b)
+    if case.get("history"):
+        # object history: A was constructed with other data, compared with B and used, and only then given its
+        # control points / weights through the public setters
+        out.cls("history=" + case["history"])
+        acase = {"U": a.U, "p": a.p, "w": a.w, "num": "frac",
+                 "P": [pt[0] for pt in a.P] if a.scalar else [list(pt) for pt in a.P]}
+
+        def use(curve):
+            lib.default_use(curve)
+            for fn in (lambda: curve == B, lambda: B != curve, lambda: curve == A):
+                try:
+                    fn()
+                except Exception as exc:
+                    if not lib.from_library(exc):
+                        raise
+        A = lib.build_curve_history(acase, case["history"], use)
+        if lib.state_of(A).key() != a.key():
+            out.exclude("setter-history-did-not-reach-the-state (C15 territory)")
+            return
     snapA, snapB = lib.snapshot(A), lib.snapshot(B)
     # structural class of the pair
     if a.U == b.U:
@@ -189,7 +209,7 @@ def check(case, out):
         rel = "other-interval"
     out.cls("rel=" + rel, "expected=" + str(expected), "degrees-differ" if a.p != b.p else "degrees-equal")
     out.nontrivial = a.U != b.U or (a.w is None) != (b.w is None)
-    klass = f"{kindA}-vs-{kindB};{rel};expect-{expected}"
+    klass = f"{kindA}-vs-{kindB};{rel};expect-{expected}" + (";after-setter-history" if case.get("history") else "")
     for label, fn, want in (("A == B", lambda: A == B, expected), ("B == A", lambda: B == A, expected),
                             ("A != B", lambda: A != B, not expected), ("B != A", lambda: B != A, not expected),
                             ("A == A", lambda: A == A, True), ("B != B", lambda: B != B, False)):
